@@ -71,6 +71,13 @@ type violation struct {
 	path    string
 }
 
+// Record lets engines that run the case themselves (E-SCHED explorer) feed a
+// result for a witness of a registered family.
+func (c *Ctx) Record(fam string, w any, r Result) { c.record(fam, w, r) }
+
+// Deadline is the internal wall-clock deadline of this run.
+func (c *Ctx) Deadline() time.Time { return c.deadline }
+
 type knownFinding struct {
 	Property string `json:"property"`
 	Class    string `json:"class"`
@@ -328,6 +335,9 @@ func Main(id, level string, run func(c *Ctx)) {
 		budget = v
 	}
 	c.deadline = c.start.Add(budget)
+	if v, err := strconv.ParseInt(os.Getenv("VERIF_DEADLINE_UNIX"), 10, 64); err == nil && v > 0 {
+		c.deadline = time.Unix(v, 0)
+	}
 	c.loadKnown()
 
 	if c.Replay != "" {
@@ -374,6 +384,11 @@ func (c *Ctx) Replaying() bool { return c.Tier == "replay" }
 func (c *Ctx) finish() int {
 	c.mu.Lock()
 	defer c.mu.Unlock()
+	if c.Shard >= 0 {
+		// shard workers print their raw counters for the parent to merge
+		fmt.Printf("SHARD-EVIDENCE %s\n", mustJSON(c.shardDump()))
+		return 0
+	}
 	outDir := filepath.Join(VerifDir, "out", "replay")
 	_ = os.MkdirAll(outDir, 0o755)
 	// remove stale replay files of this property
@@ -450,9 +465,9 @@ func (c *Ctx) finish() int {
 	}
 	b, _ := json.MarshalIndent(ev, "", " ")
 	if c.Shard >= 0 {
-		// shard workers print their evidence for the parent to merge
-		fmt.Printf("SHARD-EVIDENCE %s\n", mustJSON(ev))
-		return code
+		// shard workers print their raw counters for the parent to merge
+		fmt.Printf("SHARD-EVIDENCE %s\n", mustJSON(c.shardDump()))
+		return 0
 	}
 	evDir := envOr("VERIF_EVIDENCE_DIR", filepath.Join(VerifDir, "evidence"))
 	_ = os.MkdirAll(evDir, 0o755)
